@@ -179,7 +179,10 @@ def run_case(ctx, mon, cfg_id, terms, prods, inputs_spec=None, rng=None, any_spe
             ctx.evaluated()
             mon.reset()
             try:
-                tree = parser.parse(text.split("\n") if as_lines else text, do_cleanup=False)
+                lines = text.split("\n")
+                # (a text given as lines comes as a list or, every other time, as a one-shot iterator)
+                tree = parser.parse((lines if len(text) % 2 else iter(lines)) if as_lines else text,
+                                    do_cleanup=False)
                 verdicts[smart] = True
             except llparser.ParsingError:
                 verdicts[smart] = False
